@@ -66,9 +66,110 @@ def scenarios(tier, pid):
     return S
 
 
+MODEL_INV = {"C09": ["NoLostWakeup"], "C10": ["YieldBounded"],
+             "C11": ["PendingOnlyIfConsulted", "CloseUnblocks"]}
+
+
+def extract_params():
+    """Step orders of the action closure, of pending(), of close(), and whether poll_signal
+    re-checks `closed` when poll_pending answered None (observed on one forced schedule)."""
+    sig, _, _ = harness("iterator", "--signature")
+    stale = []
+    c = dict(ActionOrder="store_then_wake", ConsumerOrder="drain_then_scan",
+             CloseOrder="flag_then_wake", PollRecheck=True)
+
+    def pos(steps, pred):
+        return next((i for i, x in enumerate(steps) if pred(x)), None)
+    a = sig["action"]
+    i_store = pos(a, lambda x: x[0] in ("store", "swap", "cas") and x[1].startswith("slot"))
+    i_wake = pos(a, lambda x: x[0] == "syscall" and x[1] == "wake")
+    if i_store is None or i_wake is None:
+        stale.append("action: no slot store / no wake seen")
+    else:
+        c["ActionOrder"] = "store_then_wake" if i_store < i_wake else "wake_then_store"
+    p = sig["pending"]
+    i_flush = pos(p, lambda x: x[0] == "syscall" and x[1] == "flush")
+    i_scan = pos(p, lambda x: x[1].startswith("slot"))
+    if i_flush is None or i_scan is None:
+        stale.append("pending(): no flush / no scan seen")
+    else:
+        c["ConsumerOrder"] = "drain_then_scan" if i_flush < i_scan else "scan_then_drain"
+    cl = sig["close"]
+    i_flag = pos(cl, lambda x: x[0] == "store" and x[1] == "closed")
+    i_cw = pos(cl, lambda x: x[0] == "syscall" and x[1] == "wake")
+    if i_flag is None or i_cw is None:
+        stale.append("close(): no flag store / no wake seen")
+    else:
+        c["CloseOrder"] = "flag_then_wake" if i_flag < i_cw else "wake_then_flag"
+    # poll_signal: close() between the loop-top check and poll_pending's check
+    out = os.path.join(WORK, "it_extract_recheck")
+    harness("iterator", "--consumer", "b1", "--others", "c", "--replay", "s0 s0 s1 s1 s1 s0 s0 s0 s0",
+            "--out", out)
+    evs = [json.loads(l) for l in open(out + ".abs.ndjson") if l.strip()]
+    names = [e["e"] for e in evs]
+    try:
+        k = names.index("closed_set")
+        before = [e for e in evs[:k] if e["e"] == "closed_load"]
+        res = next(e["res"] for e in evs if e["e"] == "ret_poll")
+        cb = any(e["e"] == "cb" for e in evs)
+        if len(before) == 1 and not cb:
+            c["PollRecheck"] = (res == 3)
+        else:
+            stale.append("poll_signal: forced schedule did not hit the window (loads before close: %d)"
+                         % len(before))
+    except (ValueError, StopIteration):
+        stale.append("poll_signal: forced schedule produced no close / no result")
+    return c, stale, sig
+
+
+def model_configs(tier):
+    T = tier == "thorough"
+    q = [
+        ("2 watched signals, 2 handler threads (3 deliveries), 1 delivery nested on the consumer, "
+         "consumer: wait, wait, pending",
+         dict(Sigs={10, 12}, HandlerThreads={1, 2}, Deliveries="@(1 :> <<10>>) @@ (2 :> <<12, 10>>)",
+              Calls=["wait", "wait", "pending"], Closers=set(), MaxNested=1, NestedSigs={12}), 300),
+        ("poll_signal blocking / non-blocking / blocking with a concurrent close() and 3 deliveries",
+         dict(Sigs={10, 12}, HandlerThreads={1, 2}, Deliveries="@(1 :> <<10>>) @@ (2 :> <<12, 10>>)",
+              Calls=["pollb", "polln", "pollb"], Closers={9}, MaxNested=1, NestedSigs={12}), 300),
+        ("non-blocking polls and a blocking one, no close, nested delivery of the lower signal",
+         dict(Sigs={10, 12}, HandlerThreads={1, 2}, Deliveries="@(1 :> <<12>>) @@ (2 :> <<10, 12>>)",
+              Calls=["polln", "polln", "pollb", "polln"], Closers=set(), MaxNested=1,
+              NestedSigs={10}), 300),
+    ]
+    if T:
+        q.append(("3 watched signals, 3 handler threads x 2 deliveries, 2 nested, wait x3 + polls, two closers",
+                  dict(Sigs={10, 12, 14}, HandlerThreads={1, 2, 3},
+                       Deliveries="@(1 :> <<10, 14>>) @@ (2 :> <<12, 10>>) @@ (3 :> <<14, 12>>)",
+                       Calls=["wait", "pollb", "polln", "wait", "pending"], Closers={8, 9}, MaxNested=2,
+                       NestedSigs={10, 12}), 2400))
+    return q
+
+
+def run_model(chk, tier):
+    pid = chk.pid
+    if pid not in MODEL_INV:
+        return
+    consts, stale, sig = extract_params()
+    chk.params["iterator"] = {"constants": {k: str(v) for k, v in consts.items()}, "stale": stale}
+    for s in stale:
+        chk.note("model stale for the iterator: %s (the property-level monitor on real schedules is "
+                 "the only oracle)" % s)
+    if stale:
+        return
+    for what, cfg, tmo in model_configs(tier):
+        c = dict(cfg)
+        c.update(consts)
+        r = chk.model_check("Iterator.tla", c, invariants=MODEL_INV[pid], what=what, timeout=tmo,
+                            workers=8 if tier == "quick" else 12, deadlock=False)
+        if r.violation:
+            chk.model_violation(r, "iterator protocol as extracted (%s)" % what, c)
+
+
 def run_iterator(chk, tier):
     pid = chk.pid
     inv = INV_OF[pid]
+    run_model(chk, tier)
     for name, args in scenarios(tier, pid):
         out = os.path.join(WORK, "it_%s_%s" % (pid, name))
         stats, _, _ = harness("iterator", *args, "--out", out, "--max", 200000, timeout=3000)
